@@ -523,7 +523,9 @@ func (x *Exec) serialCheck(t *txRun, txid uint64) {
 		kind := "unclassified"
 		b := t.obs[i]
 		switch {
-		case o.Kind == "pget" && b.Kind == "found" && b.E.Tx == 0:
+		case o.Kind == "pget" && b.Kind == "found" && b.E.Tx == 0 &&
+			!(s.Kind == "found" && bytes.Compare(s.E.Key, b.E.Key) >= 0):
+			// answered by an own write; alone at the commit point a smaller key answers (or hides) it
 			kind = KindPrefixOwn
 		case o.Kind == "read" && b.Kind == "found" && b.E.Tx == 0 && lastReadOfSegment(t.prog, i):
 			kind = KindReaderTail
